@@ -113,6 +113,10 @@ def structured():
             ("mroot", ("mpow", ("int", 2), -1201), 2), ("mroot", ("mpow", ("int", 10), -613), 3), ("mroot", ("mpow", ("int", 2), 32001), 2), ("mroot", ("mpow", ("int", 2), 5003), 5),
             ("mroot", ("mpow", ("int", 3), 1001), 2), ("mroot", ("mpow", ("int", 10), 1201), 4), ("mroot", ("mpow", ("int", 2), -2047), 2), ("mroot", ("mpow", ("int", 7), 2999), 3),
             ("mmul", ("mroot", ("mpow", ("int", 2), 1501), 2), ("mroot", ("mpow", ("int", 3), -901), 2)), ("mroot", ("mpow", ("int", 2), 190), 3),
+            # two primes beyond 2^53 that are neighbours as doubles, in one magnitude
+            ("mdiv", ("int", 2305843009213693951), ("int", 2305843009213693921)), ("mmul", ("int", 2305843009213693951), ("int", 2305843009213693921)), ("mdiv", ("int", 18446744073709551557), ("int", 18446744073709551533)),
+            # composites that are strong pseudoprimes to bases 2 and 3 (and to 2, 3, 5), as single literals next to their true factors
+            ("mdiv", ("int", 1373653), ("int", 829)), ("mdiv", ("int", 25326001), ("int", 2251)), ("mdiv", ("int", 3215031751), ("int", 151)), ("mmul", ("int", 1530787), ("int", 2)),
             # the integer power overflows long double although its root is in range (known finding N10)
             ("mroot", ("mpow", ("int", 3), 19999), 2)]
     return out
